@@ -10,14 +10,14 @@ moduliToC branch priority vs the model, the Eshelby energy (Ellipsoid and Bohm) 
 code's own quadrature nodes vs the real methods, setter op sequences on the real StrainEnergy vs the
 state-machine model (final tensors, description, energy compared).  Direct oracle: the C16
 predicates on the real code (see MONITORED)."""
-import itertools, math, os, sys
+import itertools, math, os, sys, traceback
 import numpy as np
 import vlib
 from vlib import Result, enc_list, f2b, Toks, close
 
 PROP = 'C16'
 META = {
-    'level_text': 'Lean 4 theorems about definitions REGENERATED on every run from ElasticFactors.py by a concolic tracer (all 15 input-pair branches of moduliToC, Khachaturyan sphere/cube, constant description, Cramer 3x3 inverse, _beta, _n) and about a hand model (KawinV.Elastic) of the tensor-rank conversions, rotations, the repaired invert4rankTensor, the Eshelby energy skeleton (sphInt/Dijkl/Sijmn/Ellipsoid/Bohm over an arbitrary node list) and the StrainEnergy setter state machine with update() as coded after the repairs: rank conversions round-trip (every 6x6; every 4th-rank tensor with the minor symmetries), rotation keeps the minor symmetries, Cramer inverse is a two-sided inverse and the only one when det != 0, every moduliToC branch returns the compliance of the textbook (E, nu, G) for consistent input (sqrt branches under explicit sign hypotheses; the E-M branch is proved to return the OTHER root for negative nu), compliance x stiffness = 1, Khachaturyan on isotropic constants = 2G(1+nu)/(1-nu) eps^2 V, size scaling E(s r) = s^3 E(r) and eigenstrain scaling E(c eps) = c^2 E(eps) for Khachaturyan, constant, Ellipsoid and Bohm, homogeneous inclusion Bohm = Ellipsoid, the repaired invert4rankTensor is the inverse on minor-symmetric tensors (and the unweighted one is not: witness), and the final parameters of any setter sequence are a function of the final (rotation, rotationPrec, stiffnesses, applied stress) only (false of the code before commit 187e553: witness).',
+    'level_text': 'Lean 4 theorems about definitions REGENERATED on every run from ElasticFactors.py by a concolic tracer (all 15 input-pair branches of moduliToC, Khachaturyan sphere/cube, constant description, Cramer 3x3 inverse, _beta, _n) and about a hand model (KawinV.Elastic) of the tensor-rank conversions, rotations, the repaired invert4rankTensor, the Eshelby energy skeleton (sphInt/Dijkl/Sijmn/Ellipsoid/Bohm over an arbitrary node list) and the StrainEnergy setter state machine with update() as coded after the repairs: rank conversions round-trip (every 6x6; every 4th-rank tensor with the minor symmetries), rotation keeps the minor symmetries, Cramer inverse is a two-sided inverse and the only one when det != 0, every moduliToC branch returns the compliance of the textbook (E, nu, G) for consistent input (sqrt branches under explicit sign hypotheses; the E-M branch is proved to return the OTHER root for negative nu), compliance x stiffness = 1, Khachaturyan on isotropic constants = 2G(1+nu)/(1-nu) eps^2 V, size scaling E(s r) = s^3 E(r) and eigenstrain scaling E(c eps) = c^2 E(eps) for Khachaturyan, constant, Ellipsoid and Bohm, homogeneous inclusion Bohm = Ellipsoid, the repaired invert4rankTensor is the inverse on minor-symmetric tensors (and the unweighted one is not: witness), the final parameters of any setter sequence are a function of the final (rotation, rotationPrec, stiffnesses, applied stress) only (false of the code before commit 187e553: witness), and in a family of live objects an interleaved call sequence leaves every object in the state its own calls alone produce (runFam_independent; negative witness fillDiagonal_leaks for an in-place write into the class-level array that StrainEnergyParameters shares between objects).',
     'level_note': 'MONITORED only (oracle on the real code, not proved): energy >= 0 for positive-definite stiffness; rotation invariance; textbook Eshelby tensor components of the isotropic sphere; Lebedev exactness on monomials up to the stated order on every table; agreement of the 6x6 and 4th-rank energy variants and of the two 3x3 inversion routines; Bohm against an independent 9x9 reference. The Lebedev tables produced by loadPoints are NOT exact (finding lebedev-inexact-order*): analytic clauses that depend on the quadrature are evaluated twice, with the code\'s own nodes (failures carry the finding key) and with an independent Gauss-Legendre x trapezoid rule injected into the real description (must pass). Trusted: Lean kernel + Mathlib, axioms propext/Classical.choice/Quot.sound; tools/py2lean/sym.py (validated numerically on every run); the hand model equals the NumPy code as far as this run compared them; np.linalg.inv is modelled as "an inverse" (abstract in the theorems, Gauss-Jordan in the driver); exact-field arithmetic instead of IEEE doubles; sqrt/sin/cos are atoms with the laws used stated as hypotheses and discharged for the real numbers.',
     'technique': 'Lean 4 proof over generated definitions (py2lean) + hand model/state machine + differential correspondence + analytic oracle',
     'design_ref': 'DESIGN.md section 6, C16',
@@ -30,6 +30,7 @@ MONITORED = [
     'Lebedev tables integrate all monomials x^a y^b z^c up to the stated order (53/83/131) to 1e-11',
     '6x6 and 4th-rank energy variants agree; quick (Cramer) and numpy 3x3 inversion agree; Bohm agrees with an independent 9x9 pseudo-inverse reference',
     'isotropic sphere: Ellipsoid/Bohm/Khachaturyan energy = 2G(1+nu)/(1-nu) eps^2 V',
+    'object independence on the real code: several live StrainEnergy objects configured in interleaved order, each read after all were configured, equal a fresh single object given the same calls and hold the eigenstrain supplied to them; eps^2 / s^3 scaling and the closed form evaluated across objects',
 ]
 ASSUMPTIONS = [
     'stiffness tensors are positive definite cubic or isotropic (plus rotations of them); radii positive; eigenstrain a symmetric 3x3 tensor',
@@ -290,6 +291,19 @@ def bohm_reference(cM4, cP4, S, eig, V):
     return -0.5 * V * float(np.sum((sC - s0) * eig.reshape(9)))
 
 
+def attempt(res, part, idx, fn):
+    """robustness rule: one case = one call; whatever the code under test (or the evaluation of its output)
+    raises becomes a violation of that case and never aborts corr()"""
+    fn.info = None
+    try:
+        fn(idx)
+    except Exception as ex:
+        res.violate('exception:%s:%s' % (part, type(ex).__name__),
+                    '%s case %r raised %r' % (part, idx, ex),
+                    dict(part=part, index=idx if isinstance(idx, (int, str)) else repr(idx), input=fn.info,
+                         traceback=traceback.format_exc()[-1800:]))
+
+
 # ------------------------------------------------------------------ part A/B: generated defs and tensor utilities
 def part_formulas(ctx, res, EF, r):
     lines, checks = [], []          # checks: (what, case, fn(Toks) -> None)
@@ -300,7 +314,7 @@ def part_formulas(ctx, res, EF, r):
     # moduliToC: every pair, consistent and arbitrary positive input
     n = ctx.n(6, 60)
     for pi, (a, b) in enumerate(PAIRS):
-        for k in range(n):
+        def _case_moduli_pairs(k):
             E = 10 ** r.uniform(9, 11.7); nu = r.uniform(0.03, 0.47) if k % 3 else -r.uniform(0.03, 0.8)
             v = consistent(E, nu)
             if k % 4 == 3:
@@ -309,9 +323,9 @@ def part_formulas(ctx, res, EF, r):
                 with np.errstate(all='ignore'):
                     C = EF.moduliToC(**{a: v[a], b: v[b]})
             except Exception as e:
-                res.count('moduli-raise'); continue
+                res.count('moduli-raise'); return
             if not np.all(np.isfinite(C)):
-                res.count('moduli-nonfinite'); continue
+                res.count('moduli-nonfinite'); return
             case = dict(pair=[a, b], a=v[a], b=v[b])
             res.case(('moduli', a, b, k)); res.count('pair:%s-%s' % (a, b))
             s = np.linalg.inv(C)
@@ -341,8 +355,10 @@ def part_formulas(ctx, res, EF, r):
                     res.count('E-M-negative-nu-other-root')     # proved: the branch returns the positive root (Props.C16.moduli_E_M_negative)
                 elif not ok:
                     res.violate('moduli-%s-%s' % (a, b), 'moduliToC(%s, %s) does not return the stiffness of the moduli it was given' % (a, b), case, list(map(float, got)), want)
+        for k in range(n):
+            attempt(res, 'moduli-pairs', k, _case_moduli_pairs)
     # branch priority with 0..6 moduli given
-    for k in range(ctx.n(80, 1500)):
+    def _case_moduli_priority(k):
         E = 10 ** r.uniform(9, 11.7); nu = r.uniform(0.05, 0.45)
         v = consistent(E, nu)
         given = {m: (v[m] * (r.uniform(0.7, 1.3) if r.random() < 0.5 else 1.0)) for m in MODS if r.random() < r.choice([0.25, 0.5, 0.8])}
@@ -353,11 +369,11 @@ def part_formulas(ctx, res, EF, r):
             with np.errstate(all='ignore'):
                 C = EF.moduliToC(**given)
             if not np.all(np.isfinite(C)):
-                continue
+                return
         except (TypeError, ZeroDivisionError):
             C = None
         except np.linalg.LinAlgError:
-            continue
+            return
         case = dict(given=given)
         res.case(('priority', tuple(sorted(given)), k), C is not None); res.count('moduli-given-%d' % len(given))
 
@@ -368,9 +384,11 @@ def part_formulas(ctx, res, EF, r):
             if ok and not arr_close(t.flts(), C, 1e-8):
                 res.disagree('moduliToC branch priority', case, C.ravel().tolist(), 'different branch')
         add('el.moduliC ' + ' '.join(opt_tok(given.get(m)) for m in MODS), 'priority', case, chk_p)
+    for k in range(ctx.n(80, 1500)):
+        attempt(res, 'moduli-priority', k, _case_moduli_priority)
 
     # Khachaturyan / constant
-    for k in range(ctx.n(40, 800)):
+    def _case_khachaturyan(k):
         c11, c12, c44 = rand_cubic(r) if k % 3 else rand_iso(r)[:3]
         eps = r.uniform(-0.05, 0.05); rad = 10 ** r.uniform(-10, -7, 3); e0 = 10 ** r.uniform(5, 9)
         I1, I2 = r.uniform(0, 0.1), r.uniform(0, 0.02)
@@ -406,10 +424,12 @@ def part_formulas(ctx, res, EF, r):
             for d, nm in ((ds, 'sphere'), (dc, 'cube')):
                 if not close(d.computeStrainEnergy(rad), want_e, 1e-9):
                     res.violate('khachaturyan-isotropic-' + nm, 'Khachaturyan on isotropic constants != 2G(1+nu)/(1-nu) eps^2 V', case, float(d.computeStrainEnergy(rad)), want_e)
+    for k in range(ctx.n(40, 800)):
+        attempt(res, 'khachaturyan', k, _case_khachaturyan)
 
     # 3x3 inverse
     de = EF.EllipsoidalEnergyDescription()
-    for k in range(ctx.n(40, 800)):
+    def _case_inverse3(k):
         kind = k % 3
         m = r.normal(size=(3, 3))
         if kind == 0:
@@ -417,7 +437,7 @@ def part_formulas(ctx, res, EF, r):
         elif kind == 1:
             m = (m + m.T) / 2 + 3 * np.eye(3)
         if abs(np.linalg.det(m)) < 1e-3:
-            continue
+            return
         q = de._ohm_quickInverse(m[:, :, None])[:, :, 0]
         p = de._ohm_npinv(m[:, :, None])[:, :, 0]
         case = dict(m=m.tolist(), kind=['spd', 'symmetric', 'general'][kind])
@@ -438,9 +458,11 @@ def part_formulas(ctx, res, EF, r):
             if not arr_close(h, q, 1e-10, sc):
                 res.disagree('model cramer3', case, q.ravel().tolist(), h)
         add('el.gen.inv3 ' + enc_list(m.ravel()), 'inv3', case, chk_i)
+    for k in range(ctx.n(40, 800)):
+        attempt(res, 'inverse3', k, _case_inverse3)
 
     # beta, n
-    for k in range(ctx.n(30, 500)):
+    def _case_beta(k):
         a, b, c = 10 ** r.uniform(-10, -7, 3); ph = r.uniform(0, 2 * math.pi); th = r.uniform(0, math.pi)
         want = [float(de._beta(a, b, c, ph, th))] + [float(x) for x in de._n(ph, th)]
         case = dict(r=[a, b, c], phi=ph, theta=th)
@@ -453,9 +475,11 @@ def part_formulas(ctx, res, EF, r):
             if not close(g[4], want[0], 1e-12):
                 res.disagree('model betaN vs _beta', case, want[0], g[4])
         add('el.gen.beta ' + ' '.join(f2b(x) for x in (a, b, c, ph, th)), 'beta', case, chk_b)
+    for k in range(ctx.n(30, 500)):
+        attempt(res, 'beta', k, _case_beta)
 
     # rank conversions, vectors, rotations, elasticConstantToC, invert4rankTensor
-    for k in range(ctx.n(40, 600)):
+    def _case_tensors(k):
         c6 = r.normal(size=(6, 6)) * 10 ** r.uniform(0, 11)
         if k % 2:
             c6 = (c6 + c6.T) / 2
@@ -532,6 +556,8 @@ def part_formulas(ctx, res, EF, r):
             if not arr_close(t.flts(), i4, 1e-8):
                 res.disagree('invert4rankTensor', casei, 'impl', 'model differs')
         add('el.inv4 ' + enc_list(c4s.ravel()), 'inv4', casei, chki)
+    for k in range(ctx.n(40, 600)):
+        attempt(res, 'tensors', k, _case_tensors)
     return lines, checks
 
 
@@ -586,7 +612,7 @@ def part_energy(ctx, res, EF, r, lebedev_bad):
     kinds = ['iso', 'iso-hom', 'cubic-hom', 'cubic']
     eig_kinds = ['dil', 'diag', 'full']
     N = ctx.n(16, 160)
-    for k in range(N):
+    def _case_energy(k):
         kind = kinds[k % 4]; ek = eig_kinds[(k // 4) % 3]
         M, Pm, desc = stiffness_pair(EF, r, kind)
         eig = rand_eig(r, ek)
@@ -610,9 +636,9 @@ def part_energy(ctx, res, EF, r, lebedev_bad):
                 E = variants(se, rad)
                 S = d.Sijmn(d.Dijkl(rad, P.cMatrix_4th))
         except np.linalg.LinAlgError as ex:
-            res.violate('energy-evaluation-raises', 'strain energy evaluation raised ' + repr(ex), case); continue
+            res.violate('energy-evaluation-raises', 'strain energy evaluation raised ' + repr(ex), case); return
         if not all(math.isfinite(x) for x in E.values()):
-            res.violate('energy-not-finite', 'strain energy is not finite for positive-definite stiffness', case, E, 'finite'); continue
+            res.violate('energy-not-finite', 'strain energy is not finite for positive-definite stiffness', case, E, 'finite'); return
         escale = max(abs(x) for x in E.values())
         # ---- correspondence: the model evaluates the same quadrature (first cases use the small table)
         if k < ctx.n(8, 40):
@@ -677,8 +703,10 @@ def part_energy(ctx, res, EF, r, lebedev_bad):
             for nm, e in E.items():
                 if not close(e, want, 1e-9):
                     res.violate('isotropic-sphere-closed-form-' + nm, 'energy of a dilatational sphere in an isotropic matrix != 2G(1+nu)/(1-nu) eps^2 V', case, e, want)
+    for k in range(N):
+        attempt(res, 'energy', k, _case_energy)
     # ---- isotropic sphere with a dilatation: every route to the energy gives 2G(1+nu)/(1-nu) eps^2 V
-    for k in range(ctx.n(6, 60)):
+    def _case_isotropic_sphere(k):
         cm = rand_iso(r); M = EF.elasticConstantToC(*cm[:3]); G, nu = cm[2], cm[4]
         a = 10 ** r.uniform(-9.5, -7.5); rad = np.array([a, a, a]); eps = r.uniform(-0.03, 0.03)
         want = 2 * G * (1 + nu) / (1 - nu) * eps ** 2 * 4 * math.pi / 3 * a ** 3
@@ -693,8 +721,10 @@ def part_energy(ctx, res, EF, r, lebedev_bad):
         for nm, e in got.items():
             if not close(e, want, 1e-9):
                 res.violate('isotropic-sphere-closed-form-' + nm, 'energy of a dilatational sphere in an isotropic matrix != 2G(1+nu)/(1-nu) eps^2 V', case, e, want)
+    for k in range(ctx.n(6, 60)):
+        attempt(res, 'isotropic-sphere', k, _case_isotropic_sphere)
     # ---- clauses that need an exact quadrature: own tables (failures carry the table's finding key) and injected product rule
-    for k in range(ctx.n(6, 40)):
+    def _case_eshelby_components(k):
         cm = rand_iso(r); M = EF.elasticConstantToC(*cm[:3]); nu = cm[4]
         want = {'1111': (7 - 5 * nu) / (15 * (1 - nu)), '1122': (5 * nu - 1) / (15 * (1 - nu)), '1212': (4 - 5 * nu) / (15 * (1 - nu))}
         a = 10 ** r.uniform(-9.5, -7.5); rad = np.array([a, a, a])
@@ -711,6 +741,8 @@ def part_energy(ctx, res, EF, r, lebedev_bad):
                 res.violate(key, 'Eshelby tensor of the isotropic sphere (quadrature %s): component S%s = %.6f, textbook %.6f' % (order, bad[0][0], bad[0][1], want[bad[0][0]]),
                             dict(nu=nu, cM=list(cm[:3]), order=order), bad[:3], want)
     for k in range(ctx.n(6, 40)):
+        attempt(res, 'eshelby-components', k, _case_eshelby_components)
+    def _case_rotation_invariance(k):
         # rotation invariance: sphere + dilatation in a cubic matrix, matrix and precipitate rotated together;
         # ellipsoid with full eigenstrain in an isotropic matrix / precipitate pair
         if k % 2 == 0:
@@ -730,6 +762,8 @@ def part_energy(ctx, res, EF, r, lebedev_bad):
                 key = ('lebedev-inexact-order%d' % ORDERS[order]) if (order != 'exact' and ORDERS[order] in lebedev_bad and what == 'cubic-sphere') else 'rotation-invariance-%s-%s' % (what, order)
                 res.violate(key, 'energy changes when the crystal axes are rotated (%s, quadrature %s)' % (what, order),
                             dict(desc, eig=eig.tolist(), r=rad.tolist(), rot=R.tolist(), order=order), e1, e0)
+    for k in range(ctx.n(6, 40)):
+        attempt(res, 'rotation-invariance', k, _case_rotation_invariance)
     return lines, checks
 
 
@@ -737,7 +771,7 @@ def part_energy(ctx, res, EF, r, lebedev_bad):
 def part_lebedev(ctx, res, LN, r):
     """every table against the closed-form sphere moments of monomials up to its order"""
     bad_orders = {}
-    for order in (53, 83, 131):
+    def _case_lebedev(order):
         phi, theta, w = LN.loadPoints(order)
         x = np.sin(theta) * np.cos(phi); y = np.sin(theta) * np.sin(phi); z = np.cos(theta)
         mons = [(a, b, d - a - b) for d in range(0, 13) for a in range(d + 1) for b in range(d - a + 1)]
@@ -768,6 +802,8 @@ def part_lebedev(ctx, res, LN, r):
                         % ((order, len(w), nuniq) + (worst[0] + (worst[1], worst[2]) if worst else (0, 0, 0, 0.0, 0.0))),
                         dict(order=order, monomial=list(worst[0]) if worst else None, nodes=len(w), distinct=nuniq),
                         worst[1] if worst else nuniq, worst[2] if worst else len(w))
+    for order in (53, 83, 131):
+        attempt(res, 'lebedev', order, _case_lebedev)
     return bad_orders
 
 
@@ -846,22 +882,61 @@ def apply_op(se, op):
     else: se.setAppliedStress(op[1])
 
 
-def run_ops(EF, shape, ops):
-    se = EF.StrainEnergy(['constant', 'sphere', 'cube', 'ellipsoid'][shape])
-    flags = ''
-    for op in ops:
+SHAPES = ['constant', 'sphere', 'cube', 'ellipsoid']
+
+
+def moduli_accepted(args):
+    """moduliToC needs two moduli that are given and non-zero (any two form one of the 15 pairs)"""
+    return sum(1 for x in args if x) >= 2
+
+
+def apply_flag(se, op):
+    """one setter call; 'F' = the call raised for an input it is entitled to reject (fewer than two moduli);
+    any other exception propagates (and becomes a violation of the case)"""
+    if op[0] in (5, 9) and not moduli_accepted(op[1]):
         try:
             with np.errstate(all='ignore'):
                 apply_op(se, op)
-            flags += 'T'
         except (TypeError, ZeroDivisionError):
-            flags += 'F'
+            return 'F'
+        raise AssertionError('%s accepted fewer than two moduli: %r' % (OPN[op[0]], op[1]))
+    with np.errstate(all='ignore'):
+        apply_op(se, op)
+    return 'T'
+
+
+def run_ops(EF, shape, ops):
+    se = EF.StrainEnergy(SHAPES[shape])
+    flags = ''
+    for op in ops:
+        flags += apply_flag(se, op)
     return se, flags
+
+
+def expected_eig(ops):
+    """the eigenstrain tensor an object must hold: what its last setEigenstrain call supplied"""
+    e = np.zeros((3, 3)); kind = 'never-set'
+    for op in ops:
+        if op[0] == 12:
+            e = op[1] * np.identity(3); kind = 'scalar'
+        elif op[0] == 13:
+            e = np.diag(np.asarray(op[1], dtype=float)); kind = 'vector'
+        elif op[0] == 14:
+            e = np.array(op[1], dtype=float); kind = 'matrix'
+    return e, kind
+
+
+def energy_of(se, fs, rad):
+    """compute() where it is defined: a Khachaturyan / Eshelby description needs a matrix tensor"""
+    if fs['desc'] != 0 and not np.any(fs['cM4']):
+        return float('nan')
+    with np.errstate(all='ignore'):
+        return float(se.compute(rad))
 
 
 def final_state(se):
     P = se.params
-    z = lambda a, shape: np.asarray(a, dtype=float) if np.shape(a) == shape else np.zeros(shape)
+    z = lambda a, shape: np.array(a, dtype=float, copy=True) if np.shape(a) == shape else np.zeros(shape)
     return dict(desc=DESC_CODE[type(se.description).__name__], cM4=z(P.cMatrix_4th, (3, 3, 3, 3)), cM2=z(P.cMatrix_2nd, (6, 6)),
                 cP4=z(P.cPrec_4th, (3, 3, 3, 3)), cP2=z(P.cPrec_2nd, (6, 6)), stress=z(P.appliedStress, (3, 3)),
                 strain=z(P.appliedStrain, (3, 3)), eig=z(P.eigenstrain, (3, 3)))
@@ -876,22 +951,22 @@ def op_descr(ops):
 
 def part_sequences(ctx, res, EF, r, nseq=None):
     lines, checks = [], []
-    for k in range(nseq or ctx.n(120, 3000)):
+    def _case_sequences(k):
         shape = int(r.integers(0, 4))
         nops = int(r.integers(1, ctx.n(25, 200))) if r.random() < 0.85 else int(r.integers(1, 5))
         ops = [gen_op(r, EF) for _ in range(nops)]
-        try:
-            se, flags = run_ops(EF, shape, ops)
-        except np.linalg.LinAlgError:
-            res.count('seq-singular-skipped'); continue
+        _case_sequences.info = describe_family([shape], [(0, op) for op in ops])
+        se, flags = run_ops(EF, shape, ops)
         fs = final_state(se)
         a = 10 ** r.uniform(-9.5, -7.5); rad = a * r.uniform(0.5, 2, 3)
-        try:
-            with np.errstate(all='ignore'):
-                en = float(se.compute(rad)) if fs['desc'] != 3 else float('nan')
-        except IndexError:       # Khachaturyan description chosen by hand while no stiffness was ever set (cMatrix_2nd is the 3x3 placeholder)
-            en = float('nan'); res.count('compute-raises-without-stiffness')
+        en = energy_of(se, fs, rad) if fs['desc'] != 3 else float('nan')
+        if fs['desc'] in (1, 2) and not np.any(fs['cM4']):
+            res.count('compute-undefined-without-stiffness')
         case = dict(shape=shape, ops=op_descr(ops), seq=k, n=nops)
+        want_eig, ekind = expected_eig(ops)
+        if not np.array_equal(fs['eig'], want_eig):
+            res.violate('eigenstrain-not-as-supplied:' + str(ekind), 'after the sequence the eigenstrain tensor is not what the last setEigenstrain call supplied',
+                        case, fs['eig'].tolist(), want_eig.tolist())
         res.case(('seq', k, nops, shape), nops >= 3); res.count('seq-ops', nops); res.traces += 1
         for o in ops:
             res.count('op:' + OPN[o[0]])
@@ -915,13 +990,15 @@ def part_sequences(ctx, res, EF, r, nseq=None):
                 res.disagree('compute() after the sequence', case, en, me)
         lines.append('el.seq %d %d %s %s' % (shape, len(ops), ' '.join(enc_op(o) for o in ops), enc_list(rad)))
         checks.append(('seq', case, chk_s))
+    for k in range(nseq or ctx.n(120, 3000)):
+        attempt(res, 'sequences', k, _case_sequences)
     return lines, checks
 
 
 def part_order_oracle(ctx, res, EF, r, n=None):
     """direct oracle for the order clause: the same rotation / stiffness / stress / eigenstrain supplied in two
     orders gives the same parameters and description; and the applied strain reproduces the applied stress"""
-    for k in range(n or ctx.n(60, 1500)):
+    def _case_setter_order(k):
         shape = int(r.integers(0, 4))
         items = {
             'matrix': (int(r.choice([2, 3, 4, 5])),),
@@ -963,6 +1040,209 @@ def part_order_oracle(ctx, res, EF, r, n=None):
             back = np.einsum('ijkl,kl->ij', st['cM4'], st['strain'])
             if not arr_close(back, st['stress'], 1e-8):
                 res.violate('applied-strain-not-inverse', 'cMatrix_4th : appliedStrain != appliedStress', case, back.tolist(), st['stress'].tolist())
+    for k in range(n or ctx.n(60, 1500)):
+        attempt(res, 'setter-order', k, _case_setter_order)
+
+
+# ------------------------------------------------------------------ part E: several live objects
+def gen_object_ops(r, EF):
+    """the calls one object receives: random setters of all kinds, mostly including a stiffness and an eigenstrain
+    (scalar / 3-vector / matrix equally likely)"""
+    ops = [gen_op(r, EF) for _ in range(int(r.integers(0, 7)))]
+    if r.random() < 0.85:
+        ops.insert(int(r.integers(0, len(ops) + 1)), gen_op_of(r, EF, int(r.choice([2, 4, 4, 5]))))
+    if r.random() < 0.9:
+        ops.insert(int(r.integers(0, len(ops) + 1)), gen_op_of(r, EF, int(r.choice([12, 13, 13, 14]))))
+    return ops or [gen_op(r, EF)]
+
+
+def gen_op_of(r, EF, code):
+    for _ in range(400):
+        op = gen_op(r, EF)
+        if op[0] == code and not (code in (5, 9) and not moduli_accepted(op[1])):
+            return op
+    return (12, 0.01)
+
+
+def interleave(r, per_obj, mode):
+    """merge the per-object call lists into one sequence of (object, call), keeping each object's order"""
+    if mode == 'sequential':
+        return [(j, op) for j, ops in enumerate(per_obj) for op in ops]
+    idx = [j for j, ops in enumerate(per_obj) for _ in ops]
+    idx = [idx[i] for i in r.permutation(len(idx))]
+    pos = [0] * len(per_obj); out = []
+    for j in idx:
+        out.append((j, per_obj[j][pos[j]])); pos[j] += 1
+    return out
+
+
+def run_family(EF, shapes, seq):
+    objs = [EF.StrainEnergy(SHAPES[sh]) for sh in shapes]
+    flags = ''
+    for j, op in seq:
+        flags += apply_flag(objs[j], op)
+    return objs, flags
+
+
+def family_failure(EF, shapes, seq, rad):
+    """object independence on the real code: every object, read AFTER all objects were configured, must equal a
+    freshly built single object that received only its own calls, and hold the eigenstrain supplied to it.
+    Returns (key, what, observed, required) of the first failure or None."""
+    objs, _ = run_family(EF, shapes, seq)
+    snaps = [final_state(o) for o in objs]                 # copies, taken before anything else is built
+    ens = [energy_of(o, fs, rad) for o, fs in zip(objs, snaps)]
+    for j in range(len(shapes)):
+        own = [op for i, op in seq if i == j]
+        want_eig, ekind = expected_eig(own)
+        if not np.array_equal(snaps[j]['eig'], want_eig):
+            return ('object-independence:eigenstrain-%s' % ekind,
+                    'object %d of %d live objects does not hold the eigenstrain supplied to it (last supplied as %s) once the others are configured' % (j, len(shapes), ekind),
+                    snaps[j]['eig'].tolist(), want_eig.tolist())
+    for j in range(len(shapes)):
+        own = [op for i, op in seq if i == j]
+        ref, _ = run_ops(EF, shapes[j], own)
+        fr = final_state(ref)
+        diff = [f for f in FIELDS if not arr_close(snaps[j][f], fr[f], 1e-12)]
+        if snaps[j]['desc'] != fr['desc']:
+            diff.append('description')
+        if diff:
+            return ('object-independence:' + '+'.join(diff), 'object %d differs from a single object given the same calls in: %s' % (j, ', '.join(diff)),
+                    {f: (np.asarray(snaps[j][f]).ravel()[:9].tolist() if f != 'description' else snaps[j]['desc']) for f in diff[:2]},
+                    {f: (np.asarray(fr[f]).ravel()[:9].tolist() if f != 'description' else fr['desc']) for f in diff[:2]})
+        er = energy_of(ref, fr, rad)
+        if math.isfinite(er) and not close(ens[j], er, 1e-12):
+            return ('object-independence:energy', 'compute() of object %d differs from a single object given the same calls' % j, ens[j], er)
+    return None
+
+
+def shrink_family(EF, shapes, seq, rad, key):
+    """greedy: drop calls / objects while the same failure key persists"""
+    def fails(sh, sq):
+        try:
+            f = family_failure(EF, sh, sq, rad)
+        except Exception:
+            return False
+        return f is not None and f[0] == key
+    changed = True; trials = 0
+    while changed and trials < 400:
+        changed = False
+        for i in range(len(seq) - 1, -1, -1):
+            trials += 1
+            cand = seq[:i] + seq[i + 1:]
+            if cand and fails(shapes, cand):
+                seq = cand; changed = True
+    used = sorted({j for j, _ in seq})
+    if len(used) < len(shapes) and len(used) >= 1:
+        remap = {j: n for n, j in enumerate(used)}
+        sh2 = [shapes[j] for j in used]; sq2 = [(remap[j], op) for j, op in seq]
+        if fails(sh2, sq2):
+            shapes, seq = sh2, sq2
+    return shapes, seq
+
+
+def describe_family(shapes, seq):
+    def val(op):
+        if op[0] in (12, 13, 14, 1, 15, 16, 17):
+            return np.asarray(op[1]).ravel().tolist() if np.ndim(op[1]) else float(op[1])
+        if op[0] in (4, 8):
+            return list(op[1:])
+        if op[0] in (5, 9):
+            return dict(zip(MODS, op[1]))
+        if op[0] == 0:
+            return SHAPES[op[1]]
+        return '<%s array>' % 'x'.join(map(str, np.shape(op[1])))
+    return dict(objects=[SHAPES[x] for x in shapes], calls=[dict(obj=j, call=OPN[op[0]], arg=val(op)) for j, op in seq])
+
+
+def part_objects(ctx, res, EF, r, n=None):
+    lines, checks = [], []
+
+    def _case_objects(k):
+        K = int(r.integers(2, 5))
+        shapes = [int(r.integers(0, 4)) for _ in range(K)]
+        per_obj = [gen_object_ops(r, EF) for _ in range(K)]
+        mode = 'sequential' if k % 3 == 0 else 'interleaved'
+        seq = interleave(r, per_obj, mode)
+        a = 10 ** r.uniform(-9.5, -7.5); rad = a * r.uniform(0.5, 2, 3)
+        _case_objects.info = describe_family(shapes, seq)
+        res.case(('objects', k, K, len(seq), mode)); res.count('objects-%d' % K); res.count('objects-' + mode); res.count('object-calls', len(seq)); res.traces += 1
+        for j, op in seq:
+            res.count('obj-op:' + OPN[op[0]])
+        if k == 0:
+            res.sample(describe_family(shapes, seq))
+        f = family_failure(EF, shapes, seq, rad)
+        if f is not None:
+            sh2, sq2 = shrink_family(EF, shapes, seq, rad, f[0])
+            f2 = family_failure(EF, sh2, sq2, rad) or f
+            res.violate(f[0], f2[1], dict(describe_family(sh2, sq2), r=rad.tolist(), shrunk_from=len(seq), case=k), f2[2], f2[3])
+        # correspondence with the family model
+        objs, flags = run_family(EF, shapes, seq)
+        snaps = [final_state(o) for o in objs]
+        ens = [energy_of(o, fs, rad) if fs['desc'] != 3 else float('nan') for o, fs in zip(objs, snaps)]
+        case = dict(describe_family(shapes, seq), case=k)
+
+        def chk(t, snaps=snaps, flags=flags, ens=ens, case=case):
+            mf = t.tok()[1:]
+            if mf != flags:
+                res.disagree('family: setter raised / returned', case, flags, mf); return
+            for j, fs in enumerate(snaps):
+                if t.nat() != fs['desc']:
+                    res.disagree('family: description of object %d' % j, case, fs['desc'], 'model differs'); return
+                for f in FIELDS:
+                    g = t.flts()
+                    if not arr_close(g, fs[f], 1e-7 if f == 'strain' else 1e-10):
+                        res.disagree('family: final %s of object %d' % (f, j), case, fs[f].ravel().tolist(), g); return
+                me = t.flt()
+                if fs['desc'] != 3 and math.isfinite(ens[j]) and not close(me, ens[j], 1e-9):
+                    res.disagree('family: compute() of object %d' % j, case, ens[j], me); return
+        lines.append('el.fam %d %s %d %s %s' % (K, ' '.join(str(x) for x in shapes), len(seq),
+                                               ' '.join('%d %s' % (j, enc_op(op)) for j, op in seq), enc_list(rad)))
+        checks.append(('family', case, chk))
+    for k in range(n or ctx.n(80, 1500)):
+        attempt(res, 'objects', k, _case_objects)
+
+    def _case_cross(k):
+        # eps^2 and s^3 scaling, closed form: evaluated ACROSS objects that were all configured before any is evaluated
+        shape = ['sphere', 'cube', 'ellipsoid', 'ellipsoid'][k % 4]
+        iso = (k // 4) % 2 == 0
+        cm = rand_iso(r) if iso else rand_cubic(r)
+        ekind = ['scalar', 'vector', 'vector', 'matrix'][(k // 2) % 4]
+        if ekind == 'scalar' or (iso and k % 3 == 0):
+            e0 = r.uniform(0.002, 0.03); base = {'scalar': e0, 'vector': [e0, e0, e0], 'matrix': (e0 * np.eye(3))}[ekind]
+            dil = True
+        elif ekind == 'vector':
+            base = r.uniform(-0.03, 0.03, 3).tolist(); dil = False
+        else:
+            base = rand_eig(r, 'full'); dil = False
+        kf = float(r.uniform(1.5, 4)); sf = float(r.uniform(0.3, 3))
+        a = 10 ** r.uniform(-9.5, -7.5)
+        rad = np.array([a, a, a]) if (shape != 'ellipsoid' or k % 8 < 4) else a * r.uniform(0.5, 2, 3)
+        scale = lambda e, f: (np.asarray(e) * f).tolist() if np.ndim(e) == 1 else (np.asarray(e) * f if np.ndim(e) else e * f)
+
+        def make(e):
+            se = EF.StrainEnergy(shape); se.setElasticConstants(*cm[:3]); se.setEigenstrain(e); return se
+        A = make(base); B = make(scale(base, kf)); C = make(base)
+        with np.errstate(all='ignore'):
+            eA, eB, eC = float(A.compute(rad)), float(B.compute(rad)), float(C.compute(sf * rad))
+        case = dict(shape=shape, cM=list(cm[:3]), eigenstrain=np.asarray(base).tolist(), supplied_as=ekind, k=kf, s=sf, r=rad.tolist(),
+                    calls='A: setElasticConstants, setEigenstrain(e); B: same with k*e; C: same as A; then A.compute(r), B.compute(r), C.compute(s r)')
+        res.case(('cross', k, shape, ekind)); res.count('cross-objects:' + ekind)
+        if not close(eB, kf ** 2 * eA, 1e-9):
+            res.violate('eigenstrain-scaling-across-objects:' + ekind, 'two live objects with eigenstrains e and k e: E_B != k^2 E_A', case, eB / eA if eA else eB, kf ** 2)
+        if not close(eC, sf ** 3 * eA, 1e-9):
+            res.violate('size-scaling-across-objects:' + ekind, 'two live objects, radii r and s r: E_C != s^3 E_A', case, eC / eA if eA else eC, sf ** 3)
+        if iso and dil and rad[0] == rad[1] == rad[2]:
+            G, lam = cm[2], cm[1]; nu = lam / (2 * (lam + G))
+            for nm, se, f in (('A', A, 1.0), ('B', B, kf)):
+                e0v = float(np.asarray(base).ravel()[0]) * f
+                want = 2 * G * (1 + nu) / (1 - nu) * e0v ** 2 * 4 * math.pi / 3 * a ** 3
+                got = float(se.compute(rad))
+                if not close(got, want, 1e-9):
+                    res.violate('isotropic-sphere-closed-form-across-objects:' + ekind,
+                                'object %s of several live objects: energy != 2G(1+nu)/(1-nu) eps^2 V for ITS eigenstrain' % nm, case, got, want)
+    for k in range(ctx.n(48, 800)):
+        attempt(res, 'cross-objects', k, _case_cross)
+    return lines, checks
 
 
 # ------------------------------------------------------------------ entry points
@@ -979,7 +1259,8 @@ def corr(ctx, oracle_only=False, scale=1):
     lebedev_bad = part_lebedev(ctx, res, LN, r)
     res.extra['lebedev_tables_inexact'] = sorted(lebedev_bad)
     lines, checks = [], []
-    for part in (lambda: part_formulas(ctx, res, EF, r), lambda: part_energy(ctx, res, EF, r, lebedev_bad), lambda: part_sequences(ctx, res, EF, r)):
+    for part in (lambda: part_formulas(ctx, res, EF, r), lambda: part_energy(ctx, res, EF, r, lebedev_bad), lambda: part_sequences(ctx, res, EF, r),
+                 lambda: part_objects(ctx, res, EF, r)):
         l, c = part()
         lines += l; checks += c
     part_order_oracle(ctx, res, EF, r)
@@ -992,7 +1273,7 @@ def corr(ctx, oracle_only=False, scale=1):
                 continue
             try:
                 fn(t)
-            except (IndexError, ValueError) as e:
+            except Exception as e:
                 res.disagree('unreadable model answer in ' + what, case, 'ok', repr(e))
     return res
 
@@ -1011,6 +1292,8 @@ def search(ctx, broken):
     part_formulas(big, res, EF, r)
     part_energy(big, res, EF, r, bad)
     part_order_oracle(big, res, EF, r)
+    part_sequences(big, res, EF, r)
+    part_objects(big, res, EF, r)
     return res
 
 
